@@ -428,6 +428,10 @@ def fixed_corpus():
         for _ in range(depth):
             t = T(k, t)
         return t
+    # the unit type as a member: as empty as a marker, but a member like any other
+    u0 = T('tup0')
+    out += [T('opt', u0), T('res', u0, u8), T('res', u8, u0), T('tup', u8, u0, T('bool')), T('tup', u0), T('tup', u0, u0), T('map', u8, u0),
+            T('cow', u0), T('range', u0), T('vec', u0), T('arr', u0, n=3), T('box', u0), T('opt', T('opt', u0))]
     # deep nesting (registration recurses as deep as the type is nested), with types first met after the deep member
     out += [nest('vec', 70, u8), T('tup', nest('opt', 30, T('tup', T('u', n=16), T('bool'))), T('i', n=64)),
             T('tup', nest('box', 40, nest('vec', 33, T('i', n=8))), s), T('arr', u8, n=255), T('arr', u8, n=256), T('arr', u8, n=65535),
